@@ -10,6 +10,19 @@ ID = "C16"
 PROPS_FILE = "Props/C16.v"
 COQ_TARGETS = ["Harness/H16.vo"]
 ALLOWED_AXIOMS = []
+# second tie (translator): coq/Gen/Core.v is regenerated from the source text of C.REPO on every run and
+# coq/Tie/T16.v proves generated definition = hand model (harness/translate/py2coq_core.py)
+EXTRA_PROPS = ["Tie/T16.v"]
+
+
+def prebuild(ctx):
+    import os
+    import sys
+    sys.path.insert(0, os.path.join(C.VERIF, "harness", "translate"))
+    import py2coq_core
+    py2coq_core.prebuild(ctx, C, ["manhattan_dist", "euclidean_dist"])
+
+
 META = {
     "level_text": "Machine-checked proof (Coq, exact rational arithmetic) about a literal model of core.normalize (writing normalized_objectives onto the solution objects: "
                   "a store keyed by object identity; the reference set is normalised in the constructor and again at the start of every calculate), distance_to_nearest / euclidean / manhattan distances and "
